@@ -268,6 +268,22 @@ func runC09(c C09Case, rounds int, rec *recorder) error {
 			}
 			targets = append(targets, tg)
 		}
+		// the same template over data in which every collection is null: renders that fail (in the middle
+		// of a data reference, mostly) run next to renders of the same template that do not
+		broken, any := data.Map{}, false
+		for k, v := range toDataMap(d) {
+			switch v.(type) {
+			case data.Map, data.List:
+				broken[k], any = data.Null{}, true
+			default:
+				broken[k] = v
+			}
+		}
+		if any {
+			tg := &c09Target{fq: fq, d: broken}
+			tg.want, tg.werr = render(tg)
+			targets = append(targets, tg)
+		}
 	}
 	if len(targets) == 0 {
 		return nil
